@@ -4,7 +4,10 @@ use super::*;
 
 use std::fmt;
 use std::task::{Context, Waker};
+#[cfg(not(feature = "verif"))]
 use std::time::Instant;
+#[cfg(feature = "verif")]
+use crate::verif::Instant;
 
 /// Tracks Stream related state
 ///
@@ -596,5 +599,36 @@ impl store::Next for NextResetExpire {
 impl ContentLength {
     pub fn is_head(&self) -> bool {
         matches!(*self, Self::Head)
+    }
+}
+
+#[cfg(feature = "verif")]
+impl Stream {
+    pub(super) fn verif_stat(&self) -> crate::verif::StreamStat {
+        let (sw, sa) = self.send_flow.verif_raw();
+        let (rw, ra) = self.recv_flow.verif_raw();
+        crate::verif::StreamStat {
+            id: self.id.into(),
+            state: self.state.verif_code(),
+            ref_count: self.ref_count,
+            is_counted: self.is_counted,
+            is_pending_send: self.is_pending_send,
+            is_pending_send_capacity: self.is_pending_send_capacity,
+            is_pending_open: self.is_pending_open,
+            is_pending_push: self.is_pending_push,
+            is_pending_accept: self.is_pending_accept,
+            is_pending_window_update: self.is_pending_window_update,
+            is_pending_reset_expiry: self.reset_at.is_some(),
+            is_recv: self.is_recv,
+            send_window: sw,
+            send_available: sa,
+            recv_window: rw,
+            recv_available: ra,
+            requested_send_capacity: self.requested_send_capacity,
+            buffered_send_data: self.buffered_send_data,
+            in_flight_recv_data: self.in_flight_recv_data,
+            has_pending_send_frames: !self.pending_send.is_empty(),
+            has_pending_recv_events: !self.pending_recv.is_empty(),
+        }
     }
 }
